@@ -151,6 +151,11 @@ Section Keystore.
     let p := clean_onto (rev dirc) (split_on 47 (name ++ key_suffix) []) in
     if existsb (N.eqb 0) name || existsb (fun c => Nat.ltb 255 (length c)) p then None else Some p.
 
+  (** Service.bak renames the key file to <file>.bak.<unix seconds> (".bak." + 10 decimal digits
+      from 2001 to 2286 = 15 bytes): the rename fails with ENAMETOOLONG when the last component
+      gets longer than NAME_MAX *)
+  Definition bak_ok (p : path) : bool := Nat.leb (length (last p []) + 15) 255.
+
   (** ---- the directory tree: regular files only; directories are implied ---- *)
   Definition fs := list (path * filedata).
 
@@ -252,7 +257,7 @@ Section Keystore.
             match decrypt_key json pw with
             | Ok k =>
                 match encrypt_key k pw salt iv with
-                | Ok d => (write s p d, OutDone)
+                | Ok d => if bak_ok p then (write s p d, OutDone) else (s, OutErr EIO)
                 | Err e => (s, OutErr e)
                 | Panic => (s, OutPanic)
                 end
@@ -267,7 +272,7 @@ Section Keystore.
         match svc_read s name pw, key_filename name with
         | Ok _, Some p =>
             match encrypt_key k pw salt iv with
-            | Ok d => (write s p d, OutDone)
+            | Ok d => if bak_ok p then (write s p d, OutDone) else (s, OutErr EIO)
             | Err e => (s, OutErr e)
             | Panic => (s, OutPanic)
             end
